@@ -108,3 +108,49 @@ func hC01chain(L int) {
 }
 
 func H_C01_chain31() { hC01chain(2) }
+
+// hC01deep (slotsPerBucket scaled to 2): 6 keys whose hashes agree in the low
+// three bits, so that one slot writer creates several overflow buckets in a row
+// (a split that sends five slots to one side, a chain of three buckets), then L
+// symbolic steps; map semantics after every step, full Items scan at the end.
+func hC01deep(L int) {
+	nk := 6
+	vlen := 2
+	opts := smallOpts(fs.Mem, 4, 10+8+vlen)
+	db, err := Open("c01d", opts)
+	vAssert(err == nil, "C01.deep.open")
+	if err != nil {
+		return
+	}
+	r := newRef(nk, 8)
+	for i := 0; i < nk; i++ {
+		h := db.hash(r.keys[i])
+		vAssume(h&7 == 5)
+		for j := 0; j < i; j++ {
+			vAssume(h != db.hash(r.keys[j]))
+		}
+	}
+	for i := 0; i < nk; i++ {
+		applyOp(db, r, 0, i, vlen, "C01.deep.fill")
+		checkReads(db, r, "C01.deep.fill")
+	}
+	nops := 2*nk + 1
+	for step := 0; step < L; step++ {
+		var code int
+		if step == 0 {
+			code = vCase() % nops
+		} else {
+			code = vChoice("op", nops)
+		}
+		op, k := decodeOp(code, nk)
+		applyOp(db, r, op, k, vlen, "C01.deep.step")
+		checkReads(db, r, "C01.deep.step")
+	}
+	checkItems(db, r, "C01.deep.final")
+	if len(db.index.freeBucketOffs) > 0 {
+		vCover("C01.deep.free-overflow-buckets")
+	}
+	vCover("C01.deep.done")
+}
+
+func H_C01_deep() { hC01deep(2) }
